@@ -33,7 +33,6 @@ READS = re.compile(
     r"|std::io::Read::read_exact$|Cursor.*::set_position$)")
 VISITS = re.compile(r"serde_core::de::Visitor::visit_\w+$")
 SEED = re.compile(r"serde_core::de::DeserializeSeed::deserialize$")
-SUBTYPE_VOUCHES = re.compile(r"Deserializer::<'de>::deserialize_(service|function)$")
 HELPERS = re.compile(r"candid::de::Deserializer::<'de>::(deserialize_\w+|recoverable_visit_some)$")
 TRAIT_DE = re.compile(r"<&mut candid::de::Deserializer<'de> as serde_core::de::Deserializer<'de>>::(deserialize_\w+)$")
 
@@ -490,13 +489,10 @@ def analyse(body, entry_bits, info=None):
                     if ap is not None and "mul" in info.len_tags.get(ap["l"], set()):
                         nb.add("bulk")
             elif name.endswith("Deserializer::<'de>::check_subtype"):
-                # wire <: expected vouches for a read only where the layout of the value does not depend on the wire type: reference
-                # values (service, func).  Anywhere else the relation also holds for `empty` (and would for any future bottom-like
-                # type), whose "values" would then be read from arbitrary bytes, so data reads need an exact test of the wire type.
-                if SUBTYPE_VOUCHES.search(b.key):
-                    nb.update(("E", "W"))
-                else:
-                    nb.add("SUB")
+                # wire <: expected does not vouch for a read: the relation also holds for the bottom type `empty`, which has no values, so
+                # a message declaring `empty` would have "values" read from arbitrary bytes.  Every read needs a test of the wire type's
+                # constructor (the subtype check then decides the rest for references).
+                nb.add("SUB")
             elif name.endswith("Deserializer::<'de>::unroll_type"):
                 nb.add("unrolled")
             return frozenset(nb)
